@@ -4,7 +4,7 @@
    (div, mod, +) by exhaustive evaluation over the finite ranges involved. *)
 From Coq Require Import ZArith List Bool Lia.
 Require Import ZifyBool.
-From Json Require Import JsonSpec JsonModel JsonProofsBase JsonProofsTotal JsonProofsRound.
+From Json Require Import JsonSpec JsonModel JsonProofsBase JsonProofsHex JsonProofsTotal JsonProofsRound.
 Import ListNotations.
 Local Open Scope Z_scope.
 Ltac Zify.zify_post_hook ::= Z.div_mod_to_equations.
@@ -117,7 +117,7 @@ Proof.
 Qed.
 
 Lemma hexn_hex4 l a b c d r w : hex4 a b c d = Some w ->
-  hexn 4 l (a :: b :: c :: d :: r) 0 = Ok (w, r) /\ 0 <= w < 65536.
+  hex_quad l (a :: b :: c :: d :: r) = Ok (w, r) /\ 0 <= w < 65536.
 Proof.
   unfold hex4. destruct (hexv a) as [x|] eqn:Ea; [|discriminate].
   destruct (hexv b) as [y|] eqn:Eb; [|discriminate]. destruct (hexv c) as [z|] eqn:Ec; [|discriminate].
@@ -125,7 +125,7 @@ Proof.
   assert (W : 4096 * x + 256 * y + 16 * z + u = w) by congruence. clear H. subst w.
   apply hexv_hex in Ea as (Ha & Va & Ra). apply hexv_hex in Eb as (Hb & Vb & Rb).
   apply hexv_hex in Ec as (Hc & Vc & Rc). apply hexv_hex in Ed as (Hd & Vd & Rd).
-  split; [|lia]. cbn [hexn peek adv]. rewrite Ha, Hb, Hc, Hd, Va, Vb, Vc, Vd. do 2 f_equal. lia.
+  split; [|lia]. rewrite hex_quad_eq. cbn [hexn peek adv]. rewrite Ha, Hb, Hc, Hd, Va, Vb, Vc, Vd. do 2 f_equal. lia.
 Qed.
 
 (* ---------- one step of the tokenizer per construct ---------- *)
